@@ -135,8 +135,10 @@ def features_of(ast):
             if isinstance(x[0], str):
                 if x[0] in ("key", "undef", "in", "has", "re", "list", "k"):
                     out.add("ext:" + x[0])
-                if x[0] == "q" and x[1] in ("_", "^"):
+                if len(x) == 3 and x[0] == "q" and x[1] in ("_", "^"):
                     out.add("root:" + x[1])
+                if x[0] == "list":
+                    continue  # the items are scalars (possibly the strings "q", "k", ...), not AST nodes
             stack.extend(x)
     return out
 
